@@ -126,7 +126,7 @@ fn recorded(log: &std::path::Path) -> Vec<Vec<String>> {
 pub fn glue(_thorough: bool) -> Report {
     use libcnb_test::{BuildConfig, BuildpackReference, ContainerConfig, TestRunner};
     let mut r = Report::new(
-        "libcnb-test's public API end to end with `pack` and `docker` replaced by argv recorders on PATH: TestRunner::build(BuildConfig {builder, app dir (fixture, or private copy with a preprocessor), buildpack references in order, env pairs}) followed by TestContext::start_container(ContainerConfig {entrypoint, command, env, exposed ports}) for configurations whose build env and container env DIFFER: exactly one `pack build` and one `docker run` are recorded and, parsed with the independent option-grammar parser, carry exactly the configured builder / path / buildpacks in order / build env, resp. entrypoint / command / container env / ports; the fixture directory is untouched when a preprocessor is used; non-trivial = all",
+        "libcnb-test's public API end to end with `pack` and `docker` replaced by argv recorders on PATH: TestRunner::build(BuildConfig {builder, app dir (fixture, or private copy with a preprocessor), buildpack references in order, env pairs}) followed by TestContext::start_container(ContainerConfig {entrypoint, command, env, exposed ports}) for configurations whose build env and container env DIFFER: exactly one `pack build` and one `docker run` are recorded and, parsed with the independent option-grammar parser, carry exactly the configured builder / path / buildpacks in order / build env, resp. entrypoint / command / container env / ports / bind mounts (host side = source); the directory given to --path exists at invocation time and holds the app incl. the preprocessor's change; the fixture directory is untouched when a preprocessor is used; non-trivial = all",
         "8 configurations (2 app-dir modes x 2 buildpack lists x 2 container configurations)",
     );
     let t = tempfile::tempdir().unwrap(); let root = t.path();
@@ -134,7 +134,8 @@ pub fn glue(_thorough: bool) -> Report {
     let log = root.join("cmd.log");
     for tool in ["pack", "docker"] {
         let p = bin.join(tool);
-        std::fs::write(&p, "#!/bin/sh\n{ printf '%s\\0' \"$(basename \"$0\")\" \"$@\"; printf '\\n--END--\\n'; } >> \"$VERIF_CMDLOG\"\nexit 0\n").unwrap();
+        // besides its argv the recorder notes what the directory given to `--path` holds AT INVOCATION TIME
+        std::fs::write(&p, "#!/bin/sh\n{ printf '%s\\0' \"$(basename \"$0\")\" \"$@\"; printf '\\n--END--\\n'; } >> \"$VERIF_CMDLOG\"\nprev=\nfor a in \"$@\"; do if [ \"$prev\" = --path ]; then if [ -d \"$a\" ]; then printf 'files=%s\\n' \"$(ls -1 \"$a\" | tr '\\n' ' ')\" > \"$VERIF_CMDLOG.path\"; else printf 'missing\\n' > \"$VERIF_CMDLOG.path\"; fi; fi; prev=\"$a\"; done\nexit 0\n").unwrap();
         use std::os::unix::fs::PermissionsExt; std::fs::set_permissions(&p, std::fs::Permissions::from_mode(0o755)).unwrap();
     }
     let old_path = std::env::var("PATH").unwrap_or_default();
@@ -149,7 +150,8 @@ pub fn glue(_thorough: bool) -> Report {
         bc.env("BUILD_ONLY", "s3cr=t").env("BP_LOG_LEVEL", "debug");
         if preprocess { bc.app_dir_preprocessor(|p| std::fs::write(p.join("extra"), "x").unwrap()); }
         let mut cc = ContainerConfig::new();
-        if variant == 0 { cc.entrypoint("web").env("PORT", "8080").env("GREETING", "a=b c").expose_port(8080); } else { cc.command(["bash", "-c", "echo hi"]).env("ONLY_IN_CONTAINER", "").expose_port(80).expose_port(443); }
+        if variant == 0 { cc.entrypoint("web").env("PORT", "8080").env("GREETING", "a=b c").expose_port(8080).bind_mount("/host/test cache", "/workspace/cache"); } else { cc.command(["bash", "-c", "echo hi"]).env("ONLY_IN_CONTAINER", "").expose_port(80).expose_port(443).bind_mount("/host/a", "/data").bind_mount("/host/b", "/etc/b"); }
+        let _ = std::fs::remove_file(root.join("cmd.log.path"));
         let input = format!("preprocessor {preprocess}, buildpacks {bps:?}, container variant {variant}");
         let res = std::panic::catch_unwind(std::panic::AssertUnwindSafe(|| { TestRunner::default().build(&bc, |ctx| { ctx.start_container(&cc, |_c| {}); }); }));
         if res.is_err() { r.violation("glue_run", "the test runner panicked although pack and docker succeeded", input.clone(), "no panic".into(), "panic".into()); continue; }
@@ -173,12 +175,19 @@ pub fn glue(_thorough: bool) -> Report {
                     (Some("web".into()), vec![], [("PORT", "8080"), ("GREETING", "a=b c")].iter().map(|(k, v)| (k.to_string(), v.to_string())).collect(), vec![8080])
                 } else { (None, vec!["bash".into(), "-c".into(), "echo hi".into()], [("ONLY_IN_CONTAINER", "")].iter().map(|(k, v)| (k.to_string(), v.to_string())).collect(), vec![80, 443]) };
                 want_ports.sort(); let mut got_ports = d.ports.clone(); got_ports.sort();
+                let mut want_mounts: Vec<(String, String)> = if variant == 0 { vec![("/host/test cache".into(), "/workspace/cache".into())] } else { vec![("/host/a".into(), "/data".into()), ("/host/b".into(), "/etc/b".into())] };
+                want_mounts.sort(); let mut got_mounts = d.mounts.clone(); got_mounts.sort();
+                if got_mounts != want_mounts { r.violation("glue_docker", "every configured bind mount reaches docker run once, host path as source and container path as target", format!("{input} -> {:?}", runs[0]), format!("{want_mounts:?} (source, target)"), format!("{got_mounts:?}")); }
                 if d.entrypoint != want_ep || d.command != want_cmd || d.env != want_env || got_ports != want_ports || !d.detach {
                     r.violation("glue_docker", "the docker run invocation yields exactly the configured entrypoint, command, container environment and ports", format!("{input} -> {:?}", runs[0]), format!("entrypoint {want_ep:?} command {want_cmd:?} env {want_env:?} ports {want_ports:?}"), format!("{d:?}"));
                 }
             }
             Err(e) => r.violation("glue_docker", "the recorded docker run invocation is not well-formed", format!("{input} -> {:?}", runs[0]), "well-formed".into(), e),
         }
+        // what pack saw under --path when it was invoked: the fixture's files, plus the preprocessor's change in the private copy
+        let seen = std::fs::read_to_string(root.join("cmd.log.path")).unwrap_or_default();
+        let want_seen = if preprocess { "files=Procfile extra \n" } else { "files=Procfile \n" };
+        if seen != want_seen { r.violation("glue_pack_path", "the directory passed to pack build exists when pack runs and holds the app (with the preprocessor's changes in the private copy)", input.clone(), want_seen.trim().into(), seen.trim().into()); }
         if std::fs::read_dir(&fixture).unwrap().count() != 1 { r.violation("glue_fixture", "the fixture stays untouched", input.clone(), "only Procfile".into(), "changed".into()); }
     } } }
     unsafe { std::env::set_var("PATH", old_path); }
